@@ -152,7 +152,14 @@ class World(object):
         nreads = [0]
         pre_timeout = [False]
 
+        answers = []
+
         def answer(size, timeout):
+            a = answer_(size, timeout)
+            answers.append(a)
+            return a
+
+        def answer_(size, timeout):
             nreads[0] += 1
             if env[1]:
                 return EOF
@@ -229,6 +236,7 @@ class World(object):
             sp.timeout = 5
         raw = b''.join(received)
         D = raw if self.enc is None else raw.decode(self.enc)
+        self.last = dict(received=list(received), answers=list(answers), exc=exc, ret=ret, P=P, D=D)
         T_ = P + D
         empty = self.S('')
         viol = None
@@ -353,10 +361,10 @@ def vkey(call, sym):
     return '%s:%s' % (call[0], sym)
 
 
-def run_task(task):
+def run_task(task, world_cls=None):
     install_clock()
     acc = Acc()
-    w = World(task)
+    w = (world_cls or World)(task)
     init = (w.S(''), w.S(''), w.S(''), task['L'], False)
     parent = {init: None}
     frontier = [init]
@@ -424,11 +432,11 @@ def path_to(parent, st):
     return hist
 
 
-def replay(spec):
+def replay(spec, world_cls=None):
     from mc.explore import unjson
     spec = unjson(spec)
     install_clock()
-    w = World(spec['task'])
+    w = (world_cls or World)(spec['task'])
     hist = [(canon_call(c), ch) for c, ch in spec['history']]
     sp, env, obs, viol = w.run_history(hist)
     out = {'observations': obs, 'violation': None}
